@@ -294,6 +294,22 @@ def scale_shapes():
         S("str", ("contains", "needle"), ln(50, E)), S("str", ("regex", "[ab]{40}")),
         S("int", ("min", 2 ** 64), ("max", 2 ** 64 + 3)), S("int", call(2 ** 70)), S("int", ("max", -2 ** 64)),
         S("float", ("min", 1e300), ("max", 1.0000001e300)), S("float", call(1e-300)),
+        # a date schema pinned to a datetime (a datetime is a date); month end and leap day
+        S("date", call(M.FIX_DT)), S("date", call(_dt.datetime(2024, 2, 29, 13, 30))), S("date", call(_dt.date(2024, 2, 29))),
+        S("datetime", call(_dt.datetime(2023, 12, 31, 23, 59, 59, 999999))),
+        # pins on an inexact decimal tie of their precision (round(x, p) and round(x * 10**p) part ways)
+        S("float", call(0.15), ("precision", 1)), S("float", call(0.35), ("precision", 1)), S("float", call(0.05), ("precision", 1)),
+        S("float", call(1.115), ("precision", 2)), S("float", call(2.675), ("precision", 2)),
+        # bounds in the subnormal range
+        S("float", ("min", 5e-324), ("max", 5e-324)), S("float", ("min", 5e-324), ("max", 1.5e-323)),
+        S("float", ("min", -1e-310), ("max", 1e-310)), S("float", call(-0.0)), S("float", call(5e-324)),
+        # declarations that must be REFUSED (a bound between the pin and the edge of its rounding
+        # cell): were one to build, the result is judged like any other schema
+        S("float", call(3.146), ("precision", 2), ("min", 3.15)), S("float", call(1.26), ("precision", 1), ("min", 1.28)),
+        S("float", call(3.154), ("precision", 2), ("max", 3.15)), S("float", ("precision", 1), call(0.34), ("max", 0.3)),
+        # unions built from smaller unions whose alternatives overlap across nesting levels
+        ("any", (("any", (INT, STR)), INT)), ("or", ("or", INT, STR), INT), ("any", (("any", (INT, STR)), ("any", (STR, NONE)))),
+        ("or", ("or", INT, NONE), ("or", NONE, STR)),
         # the largest declarable precision, free and pinned; a pinned value that overflows once scaled
         S("float", ("precision", 15)), S("float", ("min", 0.0), ("max", 1.0), ("precision", 15)),
         S("float", call(1e300), ("precision", 15)), S("float", call(-1.5e306), ("precision", 3)),
